@@ -142,6 +142,9 @@ def check_c14(tier):
     # decoders / encoders of DIFFERENT streams running in parallel do not interfere (Trace_Purity, race detector)
     from purity_checks import parallel_cold
     parallel_cold(rep, "C14", "mice")
+    # a valid stream decodes to the payload however the source delivers it (ReaderFaults.tla)
+    from rf_checks import reader_faults
+    reader_faults(rep, "C14", ["mice"], tier)
     # instances of tens of MiB (thresholds in buffering / chunking code): Trace_Huge
     from huge_checks import huge
     huge(rep, "C14", "mice")
